@@ -233,6 +233,7 @@ type scriptedInst struct {
 	id    int
 	calls []string
 	gate  chan struct{} // when set, the next step waits for it (the requesting child goes away meanwhile)
+	slow  time.Duration // every step takes that long (draining listeners, flushing configuration ... take time)
 }
 
 func (s *scriptedInst) ID() int       { return s.id }
@@ -244,6 +245,9 @@ func (s *scriptedInst) log(c string) {
 	s.mu.Unlock()
 	if g != nil {
 		<-g
+	}
+	if s.slow > 0 && c != "kill" {
+		time.Sleep(s.slow)
 	}
 	s.mu.Lock()
 	s.calls = append(s.calls, c)
@@ -280,6 +284,8 @@ type c17seq struct {
 	// Dies: the terminate signal takes effect (sequences that end with the terminate request only)
 	Dies bool `json:"dies,omitempty"`
 	K    int  `json:"k,omitempty"`
+	// SlowMs: every hand-over step of the old process takes that long
+	SlowMs int `json:"slow_ms,omitempty"`
 }
 
 var instSeq int
@@ -363,7 +369,7 @@ func c17typeClass(t int) string {
 
 func c17handover(cs c17seq) (sig, detail string) {
 	instSeq++
-	inst := &scriptedInst{id: (os.Getpid()%100000)*10000 + instSeq%10000}
+	inst := &scriptedInst{id: (os.Getpid()%100000)*10000 + instSeq%10000, slow: time.Duration(cs.SlowMs) * time.Millisecond}
 	var killMu sync.Mutex
 	oldKill := kill
 	var r *Restarter
@@ -552,6 +558,13 @@ func c17sequences(env sched.Env) *sched.Report {
 				}
 				if terminates == 1 {
 					cases = append(cases, c17seq{Seq: seq, Dies: true})
+				}
+			}
+			// steps that take their time: each single step, and the full hand-over
+			if len(seq) == 1 && reqKinds[seq[0]].call != "" && reqKinds[seq[0]].call != "kill" || fmt.Sprint(seq) == "[0 1 2 3]" {
+				cases = append(cases, c17seq{Seq: seq, SlowMs: 1300})
+				if env.Tier == "thorough" {
+					cases = append(cases, c17seq{Seq: seq, SlowMs: 3500})
 				}
 			}
 			if len(seq) <= 3 {
